@@ -195,8 +195,14 @@ def e_approx(a, o):
 
 
 def e_landscaper(a, o):
-    tr = PersistenceLandscaper(hom_deg=o.get("hom_deg", 0), num_steps=o.get("num_steps", 12), flatten=o.get("flatten", False))
-    return tr.fit_transform([a[0], a[1]])
+    kw = {}
+    if o.get("start") is not None:
+        kw["start"] = o["start"]
+    if o.get("stop") is not None:
+        kw["stop"] = o["stop"]
+    tr = PersistenceLandscaper(hom_deg=o.get("hom_deg", 0), num_steps=o.get("num_steps", 12), flatten=o.get("flatten", False), **kw)
+    out = tr.fit_transform([a[0], a[1]])
+    return (out, float(tr.start), float(tr.stop))
 
 
 def e_death_vector(a, o):
@@ -340,7 +346,8 @@ OPTS = {
     "imager_fit": st.fixed_dictionaries({"single": st.booleans(), "skew": st.booleans(), "pixel": st.sampled_from([1.0, 0.3])}),
     "imager_plots": st.fixed_dictionaries({"skew": st.booleans()}), "persimage_transform": st.fixed_dictionaries({"single": st.booleans(), "spread": st.sampled_from([1.0, 0.5])}),
     "exact_landscape": st.fixed_dictionaries({"hom_deg": st.sampled_from([0, 1])}), "approx_landscape": st.fixed_dictionaries({"hom_deg": st.sampled_from([0, 1]), "num_steps": st.sampled_from([10, 30])}),
-    "landscaper": st.fixed_dictionaries({"hom_deg": st.sampled_from([0, 1]), "flatten": st.booleans()}), "death_vector": st.just({}),
+    "landscaper": st.fixed_dictionaries({"hom_deg": st.sampled_from([0, 1]), "flatten": st.booleans(), "start": st.sampled_from([None, None, 0.0, 1.0, 2.0]),
+                                         "stop": st.sampled_from([None, None, 12.0, 9.0, 7.0])}), "death_vector": st.just({}),
     "exact_ops": st.fixed_dictionaries({"p": st.sampled_from([1, 2, 2.5])}), "approx_ops": st.fixed_dictionaries({"p": st.sampled_from([1, 2, 3.5])}),
     "plot_diagrams": st.fixed_dictionaries({"lifetime": st.booleans(), "legend": st.booleans()}), "matching_plots": st.fixed_dictionaries({"kind": st.sampled_from(["b", "w"])}),
     "kernels_weights": st.fixed_dictionaries({"cov": st.sampled_from([0.0, 0.5, 1.35])}),
